@@ -29,6 +29,9 @@ FailedTerm(e) ==
      Fail(Canon(e.term) \in AllSets => (e.found /\ e.name = Canon(e.term)), "defined term does not select its character set")
 \cup Fail(e.found => (e.back = e.name /\ e.same), "name of a character set does not map back to the same set")
 
+(* (codec_rt: every value is accepted by the character set codec itself and    *)
+(* decoded back unchanged by it -- then the data set has to preserve it too,    *)
+(* also for characters outside the agreed tables / core blocks)                 *)
 (* data set element: text of the repertoire of the set in force reads back     *)
 (* unchanged; default-repertoire VRs read back unchanged under any set         *)
 DefaultVRs == {"AE", "AS", "CS", "DA", "DS", "DT", "IS", "TM", "UI"}
@@ -44,7 +47,7 @@ FailedDs(e) ==
   THEN Fail(AllAscii(e.vals) => (e.wok /\ e.rok /\ EqualUpToPad(e.vals, e.back)),
             "default-repertoire VR does not read back unchanged under " \o
             (IF e.cs \in {"ISO_IR 6"} THEN "the default set" ELSE "a specific character set"))
-  ELSE Fail((AllInRep(e.cs, e.vals) \/ (e.where = "after-ascii" /\ AllAscii(e.vals)))
+  ELSE Fail((AllInRep(e.cs, e.vals) \/ e.codec_rt \/ (e.where = "after-ascii" /\ AllAscii(e.vals)))
                 => (e.wok /\ e.rok /\ EqualUpToPad(e.vals, e.back)),
             "text written after Specific Character Set " \o e.cs \o " does not read back unchanged: " \o
             (IF ~e.wok THEN "write fails" ELSE IF ~e.rok THEN "read fails" ELSE HowChanged(e.vals, e.back)))
